@@ -35,7 +35,7 @@ struct ref_rule
   unsigned minf, maxf;
   int eaves, reqrep, bcast /*0 any,1 false,2 true*/, isprefix;
   /* environment answers for this rule's peer name (same symbols the stubs return) */
-  int svc_exists, conn_in_queue, conn_owns_by_prefix;
+  int svc_exists, conn_in_queue, conn_owns_by_prefix, conn_is_primary;
 };
 struct ref_msg
 {
